@@ -16,6 +16,8 @@ TRUSTED = [
 ]
 # the actor-level sub-check "turns" (only C01 uses it; C02 imports TRUSTED above for the mailbox tie)
 TURNS_TRUSTED = [
+    "sub-harness 'disp' (harness/cmd/c01disp): search oracle only, no model — the real dispatchers in real time; the ants pool itself "
+    "(github.com/panjf2000/ants) is a contract",
     "actor level (sub-check turns, tie T4): the trace checker coq/C01/TurnsModel.v turns_ok is proved sound for every trace "
     "(TurnsProofs.v); what is trusted is the recording: harness/cmd/c01turns brackets every handler, supervision decision, timer "
     "callback and local function of its actors with Begin/End, the recorder is one atomic fetch-and-add per event (Go atomics "
@@ -40,7 +42,9 @@ MANIFEST = {
             "for which C01_turns_no_overlap (any two invocations of one actor at positions b1<e1, b2<e2 satisfy e1<b2 or e2<b1), "
             "C01_turns_bracketed, C01_turns_reads_last_write / _first_reads_init (each invocation read exactly what its predecessor wrote), "
             "C01_turns_closed_all_ended, C01_turns_complete / _exact (accepted = per-actor sequential histories, so correct behaviour is "
-            "never rejected) and C01_turns_rejects_seeded_behaviours are proved for every trace; thorough tier additionally under the race detector.",
+            "never rejected) and C01_turns_rejects_seeded_behaviours are proved for every trace; thorough tier additionally under the race detector. The dispatcher contract the machine assumes (Dispatch(f) runs f exactly once) is checked on the shipped dispatchers themselves by "
+            "harness/cmd/c01disp (goroutine; ants unbounded / bounded non-blocking / bounded blocking, all workers occupied up to 250 ms; "
+            "monitors C01:disp:ran-twice, never-ran, dispatch-blocks).",
     "note": "Trusted: Coq kernel+vm_compute; the machine is hand-written, its correspondence is checked per executed step but only on the "
             "schedules explored; atomics sequentially consistent; queue atomic FIFO; dispatcher contract; 'visible to the next invocation' "
             "is the happens-before of the model (store Idle -> CAS -> spawn), hardware conformance assumed. Actor level: the checker is proved, "
@@ -61,6 +65,10 @@ def turns(ctx):
     ctx.trusted += TURNS_TRUSTED
     b = vlib.go_build(ctx, "c01turns")
     vlib.run_harness(ctx, b, "turns", kinds=TURNS_KINDS)
+    # the dispatcher contract the mailbox machine assumes (Dispatch(f) runs f exactly once) on the shipped dispatchers in every
+    # configuration of their constructors, bounded BLOCKING pools with all workers busy included (monitors only)
+    d = vlib.go_build(ctx, "c01disp")
+    vlib.run_harness(ctx, d, "disp", coq=False, kinds=["C01:disp:"])
     if ctx.tier == "thorough":
         # the same scripts under the race detector: the actors' second plain variable is accessed outside the recorder's
         # atomics, so a missing happens-before between two turns of one actor is a reported race
@@ -123,6 +131,8 @@ def replay(ctx, path):
         d = {}
     if str(d.get("sub", "")).startswith("turns") or str(d.get("kind", "")).startswith("C01:turns:"):
         return replay_turns(ctx, path, d)
+    if d.get("sub") == "disp":
+        return vlib.standard_replay(ctx, {"disp": "c01disp"}, path)
     print("schedules are regenerated deterministically from VERIF_SEED; re-run `VERIF_SEED=<seed in file> bin/check %s`" % ctx.prop)
     print(open(path).read()[:3000])
     return 0
